@@ -35,52 +35,5 @@ Proof.
   split; mat_cbv; try unfold Rdiv; rewrite ?Rinv_1; list_eq ltac:(nsatz).
 Qed.
 
-(* ---- P is the Kelvin-Mandel matrix of the tensor rotation eps |-> Q eps Q^T,
-        Q = [axis_1 | axis_2 | axis_1 x axis_2] (columns).  Holds for arbitrary axes. *)
-Definition Qmat3 (a1 a2 a3 b1 b2 b3 : R) : mat :=
-  [[a1; b1; a2 * b3 - a3 * b2]; [a2; b2; a3 * b1 - a1 * b3]; [a3; b3; a1 * b2 - a2 * b1]].
-Definition sym3 (e11 e22 e33 e23 e13 e12 : R) : mat := [[e11; e12; e13]; [e12; e22; e23]; [e13; e23; e33]].
-Definition kvec3 (r2 : R) (T : mat) : vec :=
-  [entry T 0 0; entry T 1 1; entry T 2 2; r2 * entry T 1 2; r2 * entry T 0 2; r2 * entry T 0 1].
-Definition Qmat2 (a1 a2 b1 b2 : R) : mat := [[a1; b1]; [a2; b2]].
-Definition sym2 (e11 e22 e12 : R) : mat := [[e11; e12]; [e12; e22]].
-Definition kvec2 (r2 : R) (T : mat) : vec := [entry T 0 0; entry T 1 1; r2 * entry T 0 1].
-
-Theorem pmat3_is_tensor_rotation : forall a1 a2 a3 b1 b2 b3 r2 e11 e22 e33 e23 e13 e12, r2 * r2 = 2 ->
-  let Q := Qmat3 a1 a2 a3 b1 b2 b3 in let eps := sym3 e11 e22 e33 e23 e13 e12 in
-  mv (pmat3 a1 a2 a3 b1 b2 b3 1 1 r2) (kvec3 r2 eps) = kvec3 r2 (mmul 3 (mmul 3 Q eps) (mtrans 3 Q)).
-Proof.
-  intros. unfold Q, eps, Qmat3, sym3, kvec3, pmat3. mat_cbv. try unfold Rdiv; rewrite ?Rinv_1. list_eq ltac:(nsatz).
-Qed.
-
-Theorem pmat2_is_tensor_rotation : forall a1 a2 b1 b2 r2 e11 e22 e12, r2 * r2 = 2 ->
-  let Q := Qmat2 a1 a2 b1 b2 in let eps := sym2 e11 e22 e12 in
-  mv (pmat2 a1 a2 b1 b2 1 1 r2) (kvec2 r2 eps) = kvec2 r2 (mmul 2 (mmul 2 Q eps) (mtrans 2 Q)).
-Proof.
-  intros. unfold Q, eps, Qmat2, sym2, kvec2, pmat2. mat_cbv. try unfold Rdiv; rewrite ?Rinv_1. list_eq ltac:(nsatz).
-Qed.
-
-(* ---- Kelvin-Mandel scaling = D M D, D = diag(1,1,1,r2,r2,r2) *)
-Theorem kelvin_voigt_scaling_3d : forall r2 M, r2 * r2 = 2 -> wf 6 M ->
-  km3 r2 M = mmul 6 (mmul 6 (diagm [1; 1; 1; r2; r2; r2]) M) (diagm [1; 1; 1; r2; r2; r2]).
-Proof.
-  intros r2 M Hr H. destruct (wf6_inv M H) as (x1 & x2 & x3 & x4 & x5 & x6 & -> & L1 & L2 & L3 & L4 & L5 & L6).
-  destruct (len6 _ L1) as (? & ? & ? & ? & ? & ? & ->). destruct (len6 _ L2) as (? & ? & ? & ? & ? & ? & ->).
-  destruct (len6 _ L3) as (? & ? & ? & ? & ? & ? & ->). destruct (len6 _ L4) as (? & ? & ? & ? & ? & ? & ->).
-  destruct (len6 _ L5) as (? & ? & ? & ? & ? & ? & ->). destruct (len6 _ L6) as (? & ? & ? & ? & ? & ? & ->).
-  clear - Hr. unfold km3, km_T3. mat_cbv. list_eq ltac:(first [ring | nsatz]).
-Qed.
-
-Theorem kelvin_voigt_scaling_2d : forall r2 M, r2 * r2 = 2 -> wf 3 M ->
-  km2 r2 M = mmul 3 (mmul 3 (diagm [1; 1; r2]) M) (diagm [1; 1; r2]).
-Proof.
-  intros r2 M Hr H. destruct (wf3_inv M H) as (x1 & x2 & x3 & -> & L1 & L2 & L3).
-  destruct (len3 _ L1) as (? & ? & ? & ->). destruct (len3 _ L2) as (? & ? & ? & ->).
-  destruct (len3 _ L3) as (? & ? & ? & ->).
-  clear - Hr. unfold km2, km_T2. mat_cbv. list_eq ltac:(first [ring | nsatz]).
-Qed.
-
 Print Assumptions pmat3_orthogonal.
 Print Assumptions pmat2_orthogonal.
-Print Assumptions pmat3_is_tensor_rotation.
-Print Assumptions kelvin_voigt_scaling_3d.
